@@ -1655,7 +1655,10 @@ class Parallel(Logger):
         # remaining jobs.
         self._iterating = False
         if self.dispatch_one_batch(iterator):
-            self._iterating = self._original_iterator is not None
+            # The callback thread updates both attributes under the lock once
+            # the input is exhausted: read and write atomically w.r.t. it.
+            with self._lock:
+                self._iterating = self._original_iterator is not None
 
         while self.dispatch_one_batch(iterator):
             pass
